@@ -8,8 +8,8 @@ import (
 	"saomc/engine"
 	"saomc/world"
 
-	didtypes "github.com/SaoNetwork/sao/x/did/types"
 	didkeeper "github.com/SaoNetwork/sao/x/did/keeper"
+	didtypes "github.com/SaoNetwork/sao/x/did/types"
 	modeltypes "github.com/SaoNetwork/sao/x/model/types"
 	nodetypes "github.com/SaoNetwork/sao/x/node/types"
 	ordertypes "github.com/SaoNetwork/sao/x/order/types"
